@@ -135,10 +135,20 @@ def make_family(tname, qname, query, randomize, usage=False):
 
 def families(tier):
     qs = c03.QUERIES(tier)
+    G = Group
+    qs['u-vcpu-disk@1.28'] = Query({'': G({'VCPU': None, 'DISK_GB': None})},
+                                   version='1.28')
+    qs['u-vcpu-disk@1.16'] = Query({'': G({'VCPU': None, 'DISK_GB': 1})},
+                                   version='1.16')
     quick = [('flat', 'u-vcpu-disk', False), ('flat', 'u-vcpu-disk', True),
+             ('tree', 'u-vcpu-disk@1.28', False),
+             ('two', 'u-vcpu-disk@1.16', False),
              ('two-i', '1+2-isolate', False), ('tree', 'u+1-none', False),
              ('two', 'u-vcpu-disk', True)]
     extra = [('tree', 'u-vcpu-disk', False), ('tree', 'u-vcpu-disk', True),
+             ('tree', 'u-vcpu-disk@1.28', True),
+             ('two', 'u-vcpu-disk@1.28', False),
+             ('nest-s', 'u-vcpu-disk@1.28', False),
              ('two', 'u+1-none', False), ('flat-s', 'u+1-none', False),
              ('tree', 'u+1-none', True), ('two-i', '1+2-isolate', True),
              ('flat-a', 'u-member', False), ('tree-t', 'u-req', True)]
